@@ -631,7 +631,7 @@ fn section_with<E: Elem + Clone>(name: &'static str, class: usize) -> Section {
             };
             let sut = Sut::<E> { max_len, class, _p: Default::default() };
             let pre = if class != 0 { format!("allocator carves blocks in {}-byte classes and grows them in place (realloc keeps the address while the new size fits the class); ", class) } else { String::new() };
-            cx.rule(name, &format!("{}histories over {{default, from(Vec exact/spare), push, pop, insert(i<=len+1), remove(i<=len), reserve(0|1|5), clone-and-swap, write(i), inspect}} on CVec<{}> with len <= {}; each history re-executed on a fresh real CVec in lock-step with Vec; non-trivial = non-empty history; distinct = distinct observation digests (contents+capacity after every step)", pre, E::NAME, max_len));
+            cx.rule(name, &format!("{}histories over {{default, from(Vec exact / spare of a few elements / 5000 spare elements), push, pop, insert(i<=len+1), remove(i<=len), reserve(0|1|5), clone-and-swap, clone_from into an empty / longer / much longer vector and swap, clone with a panicking element Clone (element types that support it), write(i), inspect}} on CVec<{}> with len <= {}; each history re-executed on a fresh real CVec in lock-step with Vec; non-trivial = non-empty history; distinct = distinct observation digests (contents+capacity after every step)", pre, E::NAME, max_len));
             hist::full(&sut, full_d, cx, name);
             let bname: &'static str = Box::leak(format!("{}_bfs", name).into_boxed_str());
             cx.rule(bname, "same alphabet, BFS with dedup on (element type, rank pattern of contents, len, capacity)");
